@@ -347,6 +347,20 @@ def _do_op(x, o):
     return f()
 
 
+def _default_containers_shared(x):
+    """annotating ONE epoch (or relabelling one channel) of a freshly constructed array must not show on another:
+    the per-epoch metadata entries / channel labels the constructor supplies are independent objects"""
+    md = getattr(x, 'metadata', None)
+    if isinstance(md, list) and len(md) >= 2 and all(isinstance(m, dict) for m in md):
+        before = [dict(m) for m in md]
+        md[0]['_one_epoch_only'] = 1
+        changed = [i for i in range(1, len(md)) if md[i] != before[i]]
+        del md[0]['_one_epoch_only']
+        if changed:
+            return f'adding a metadata key to epoch 0 of a new {list(x.shape)} array also changed epochs {changed}'
+    return None
+
+
 def impl(case):
     from psiaudio.pipeline import concat
     k = case['k']
@@ -363,7 +377,10 @@ def impl(case):
             return {'steps': [x], 'alias': None}
         steps = [_obs(x, lab)]
         src, r = _chain(x, case.get('ixs', []), lab, npk, steps)
-        return {'steps': steps, 'alias': _alias(src, r, lab) if src is not None else None}
+        alias = _alias(src, r, lab) if src is not None else None
+        if alias is None:
+            alias = _default_containers_shared(_catch(lambda: _mk_new(case)))
+        return {'steps': steps, 'alias': alias}
     if k == 'cat':
         ps = [_mk_lit(p, lab) for p in case['pieces']]
         before = [_obs_any(p, lab) for p in ps]
